@@ -10,6 +10,8 @@ use std::panic::{catch_unwind, AssertUnwindSafe};
 
 #[derive(Clone, Copy, PartialEq, Eq, Debug)]
 pub enum Tier {
+    /// very small workloads for the Miri interpreter (about four orders of magnitude slower)
+    Tiny,
     Quick,
     Thorough,
 }
@@ -214,14 +216,25 @@ impl Ctx {
     }
 
     pub fn quick(&self) -> bool {
-        self.tier == Tier::Quick
+        self.tier != Tier::Thorough
     }
-    /// pick by tier
+    pub fn tiny(&self) -> bool {
+        self.tier == Tier::Tiny
+    }
+    /// pick by tier (the tiny tier takes the quick value; use `random_budget` for counts)
     pub fn by_tier<T>(&self, q: T, t: T) -> T {
         if self.quick() {
             q
         } else {
             t
+        }
+    }
+    /// number of random cases for this shard: `tiny_total` in the tiny tier (whole run), else by tier
+    pub fn random_budget(&self, tiny_total: u64, q: u64, t: u64) -> u64 {
+        match self.tier {
+            Tier::Tiny => (tiny_total + self.nshards - 1) / self.nshards,
+            Tier::Quick => q / self.nshards,
+            Tier::Thorough => t / self.nshards,
         }
     }
     pub fn rng(&self, gen: &str, index: u64) -> Rng {
@@ -387,7 +400,7 @@ impl Ctx {
             .collect();
         json!({
             "property": self.prop,
-            "tier": if self.quick() { "quick" } else { "thorough" },
+            "tier": match self.tier { Tier::Tiny => "tiny", Tier::Quick => "quick", Tier::Thorough => "thorough" },
             "seed": self.seed,
             "evaluations": self.evals,
             "distinct_nontrivial": self.distinct.len(),
